@@ -108,6 +108,13 @@ def run (d : DSt) (args : List Str) (impl : String) : DSt × String × String ×
       let cnt (i : Nat) : Nat := ((rs.getD i []).filter isResponse).length
       let out := s!"burst replies={cnt 0},{cnt 1},{cnt 2}, seen=a=1,a=2,a=3 own-answer=T"
       (d, if s'.cbCalls = 3 then out else "model-error", out, "burst")
+    else if c = str "pubfail" then
+      -- one reply per query request (`one_reply_per_query_request`): the reply the callback made is the
+      -- request's answer whether or not the connection accepted it; nothing else is sent on that subject
+      let (_, rs) := QueryEvent.run 0 {} [.request .ok [.notFound]]
+      let n := ((rs.getD 0 []).filter isResponse).length
+      let out := s!"pubfail attempts={n} delivered=0"
+      (d, out, out, "pubfail")
     else if c = str "shutdownlive" then
       -- `released`: once the duration has passed nothing of a query event is left, whether or not
       -- the service is still running (the nil call itself needs a running service)
